@@ -86,7 +86,9 @@ fn judge_no_collapse(plan: &ClientPlan, run: &client::ClientRun, out: &mut RunOu
     // (a client that connects lazily opens its first connection here: that is not a reconnect)
     let had_one = run.conns.iter().any(|c| c.opened_seq < o.log_from);
     let opened_during = run.conns.iter().filter(|c| c.opened_seq >= o.log_from && c.opened_seq < o.log_to).count().saturating_sub(if had_one { 0 } else { 1 });
-    if !matches!(o.result, OpResult::Ok(OkVal::Membership(_))) || opened_during != 0 || reads != 1 {
+    // (a reconnect as such is C09's business - the client may have had its reasons; a collapsed time-out
+    // shows in the card not being read or in the card-reading command going out more than once)
+    if !matches!(o.result, OpResult::Ok(OkVal::Membership(_))) || reads != 1 {
         out.fail(
             "timeout_collapsed",
             "read_card",
@@ -472,11 +474,11 @@ impl Check for C10 {
                 if matches!(o.result, OpResult::Panic { .. } | OpResult::Hang) || (is_tx && !admitted) {
                     continue;
                 }
-                if !o.result.is_ok() || run.conns.len() != 1 {
+                if !o.result.is_ok() {
                     out.fail(
                         "timeout_collapsed",
                         format!("max_tx/{}", o.name),
-                        format!("transactions_max_num = {:?}, healthy terminal (every packet {} ms late): {} returned {} and {} connection(s) were opened", plan.cfg.max_tx_wide, plan.pt.pace_ms, o.name, o.result.class(), run.conns.len()),
+                        format!("transactions_max_num = {:?}, healthy terminal (every packet {} ms late): {} returned {} ({} connection(s) opened)", plan.cfg.max_tx_wide, plan.pt.pace_ms, o.name, o.result.class(), run.conns.len()),
                     );
                     break;
                 }
